@@ -52,12 +52,15 @@ type obs struct {
 }
 
 // build translates the abstract options into real ones (fresh objects) and calls the real code once.
-func build(c Case) (o *obs) {
+func build(c Case) (o *obs) { return buildAt(c, nil) }
+
+// buildAt: a slot holding "@" names the private path of the running sequence (history sweeps).
+func buildAt(c Case, sp *seqPaths) (o *obs) {
 	o = &obs{env: &caseEnv{}}
 	env := o.env
 	var opts client.TLSClientOptions
-	opts.Certificate = M.path("cert", c.CertFile)
-	opts.Key = M.path("key", c.KeyFile)
+	opts.Certificate = sp.resolve("cert", c.CertFile)
+	opts.Key = sp.resolve("key", c.KeyFile)
 	if c.LoadedCert != "" {
 		opts.LoadedCertificate = M.clientCert[c.LoadedCert]
 		if opts.LoadedCertificate == nil {
@@ -71,7 +74,7 @@ func build(c Case) (o *obs) {
 		return o
 	}
 	opts.LoadedKey = k
-	opts.CA = M.path("ca", c.CAFile)
+	opts.CA = sp.resolve("ca", c.CAFile)
 	if c.LoadedCA != "" {
 		opts.LoadedCA = M.caCert[c.LoadedCA]
 		if opts.LoadedCA == nil {
